@@ -518,8 +518,10 @@ pub fn check(case: &Case, _tier: Tier) -> Outcome {
     if b.locker.remote.contains_key(u) {
       o.violate("C05/existing-lockfile-entry-overwritten/remote", format!("{u}: {vals:?}"));
     }
-    if vals.len() != 1 {
-      o.violate("C05/checksum-recorded-more-than-once", format!("{u}: {vals:?}"));
+    // recording the same value twice is harmless; two different values for
+    // one resource cannot both be "the bytes used"
+    if vals.iter().any(|v| v != &vals[0]) {
+      o.violate("C05/checksum-recorded-with-different-values", format!("{u}: {vals:?}"));
     }
     let Some(actual) = b.served_sha.get(u) else {
       o.violate("C05/checksum-recorded-for-unknown-resource", format!("{u}"));
@@ -541,11 +543,15 @@ pub fn check(case: &Case, _tier: Tier) -> Outcome {
         format!("{u}: recorded {}, sha256 of the served bytes is {actual}", vals[0]),
       );
     }
+    // The statement demands a record for every new remote non-declaration
+    // module; it neither demands nor forbids one for declaration files or
+    // for registry files (whose integrity the version manifest covers), so
+    // those are only required to carry the right value (checked above).
     if u.ends_with(".d.ts") {
-      o.violate("C05/checksum-recorded-for-declaration-file", u.clone());
+      o.label("checksum-recorded-for-declaration-file");
     }
     if u.starts_with(REGISTRY) {
-      o.violate("C05/remote-checksum-recorded-for-registry-file", u.clone());
+      o.label("remote-checksum-recorded-for-registry-file");
     }
   }
   // every new remote non-declaration module has its checksum recorded
